@@ -3,6 +3,7 @@
   The Rust harness answers the same lines by running the real crate; `bin/check` diffs the two.
 -/
 import Std.Data.HashMap
+import EpsModel.ZeroGuard
 import EpsModel.Show
 import EpsModel.Mask
 import EpsModel.Schema
@@ -214,6 +215,10 @@ def step (st : St) (line : String) : St × Option String :=
           String.join (rows.map fun r => toString r.depth ++ "," ++ toString r.off ++ "," ++ toString r.size ++ "," ++ toString r.align ++ ";")))
       | _, _ => (st, some "badval")
   | ["dtype", _] => (st, some "dtype same *")
+  | ["zcc", i] =>
+      match i.toNat?.bind (st.types[·]?) with
+      | some t => (st, some s!"zcc {t.zcConst} {t.mismatch}")
+      | none => (st, some "zcc badtype")
   | ["derive", i, dterm, targs, cargs] =>
       match i.toNat?.bind (st.types[·]?), pDef dterm.toList with
       | some t, some (d, []) =>
